@@ -207,9 +207,108 @@ fn source_read_fault(ctx: &mut Ctx) {
     ctx.verdict.shape = (writer as u64) << 56 ^ (spec.buffers as u64) << 48 ^ (fail_at.min(nth as usize * 7919) as u64) ^ outcome.class().len() as u64;
 }
 
+/// Fault-injecting configuration: a write of `bita compress` fails (ENOSPC / EIO, nothing or a
+/// prefix written) -- on its temporary chunk file or on the archive itself, at a drawn write with
+/// a bias to the last one, the write whose error only a flush can still collect. Compress may
+/// fail; if it reports success the archive must be complete.
+fn compress_write_fault(ctx: &mut Ctx) {
+    let stdin = gen::chance(1, 3);
+    let mut spec = scen::gen_compress_spec(true, false);
+    spec.metadata = scen::cli_safe_metadata(&spec.metadata);
+    let max_len = gen::len_cap(spec.comp, &spec.cfg, if gen::chance(1, 6) { 3 << 20 } else { 96 * 1024 });
+    let (sspec, data) = gen::gen_source(&spec.cfg, max_len);
+    if data.is_empty() {
+        return;
+    }
+    let source = Arc::new(data);
+    let run = |fault: Option<(&str, u64, crate::sys::FaultAction)>| {
+        scen::quiet(|| {
+            let _ = std::fs::remove_file("a.cba");
+        });
+        if stdin {
+            scen::set_stdin(Some(source.to_vec()));
+        } else {
+            scen::put_file("src.bin", &source);
+            scen::set_stdin(None);
+        }
+        crate::sys::with(|s| {
+            s.log.clear();
+            if let Some((path, nth, action)) = &fault {
+                // (the seam counts the writes of a path over the whole run)
+                let base = s.path_mut(path).writes;
+                s.add_fault(path, crate::sys::Op::Write, base + *nth, action.clone());
+            }
+        });
+        let r = scen::run(&scen::compress_args(&spec, if stdin { None } else { Some("src.bin") }, "a.cba", false));
+        scen::set_stdin(None);
+        r
+    };
+    // 1. fault-free: which files does it write, and how often
+    let sched1 = scen::draw_schedule();
+    let r1 = run(None);
+    if !r1.outcome.is_success() {
+        return;
+    }
+    let writes: std::collections::BTreeMap<String, u64> = crate::sys::with(|s| {
+        let mut m = std::collections::BTreeMap::new();
+        for e in s.log.iter().filter(|e| e.op == crate::sys::Op::Write && e.ret > 0) {
+            let p = s.path_name(e.path).to_string();
+            if !p.starts_with('/') && p != "src.bin" {
+                *m.entry(p).or_insert(0) += 1;
+            }
+        }
+        m
+    });
+    if writes.is_empty() {
+        return;
+    }
+    let targets: Vec<(&String, &u64)> = writes.iter().collect();
+    let (target, &count) = targets[gen::draw(targets.len() as u32) as usize];
+    let nth = match gen::draw(4) {
+        0 | 1 => count - 1,
+        2 => 0,
+        _ => gen::draw(count as u32) as u64,
+    };
+    let errno = *gen::t(|t| t.pick(&[libc::ENOSPC, libc::EIO, libc::EDQUOT]));
+    let action = if gen::chance(1, 3) { crate::sys::FaultAction::PartialThenErrno(1 + gen::draw(4096) as usize, errno) } else { crate::sys::FaultAction::Errno(errno) };
+    // 2. the same compression with the fault
+    let sched2 = scen::draw_schedule();
+    let r2 = run(Some((target.as_str(), nth, action.clone())));
+    let fired = crate::sys::with(|s| !s.fault_fired.is_empty());
+    let archive = scen::get_file("a.cba").unwrap_or_default();
+    let desc = json!({"writer": if stdin { "cli-stdin" } else { "cli-file" }, "options": spec.json(), "source": sspec.json(), "schedules": [sched1, sched2],
+        "write_fault": {"file": target, "write": nth, "of": count, "action": format!("{:?}", action), "fired": fired}, "outcome": r2.outcome.short()});
+    if ctx.want_sample {
+        ctx.verdict.sample = Some(desc.clone());
+    }
+    if !fired {
+        return;
+    }
+    simkit::count("probe:compress-write-fault-fired");
+    if matches!(r2.outcome, Outcome::StepBudget | Outcome::Deadlock) {
+        ctx.fail(&format!("compress-cli:{}", r2.outcome.class()), format!("compress with a failing write ended with {}; {}", r2.outcome.short(), desc));
+        return;
+    }
+    if r2.outcome.is_success() {
+        let complete = decode_archive(&archive).ok().and_then(|ra| ref_unpack(&ra, &archive).ok()).map(|u| u == **source).unwrap_or(false);
+        if !complete {
+            ctx.fail(
+                "write-error-ignored",
+                format!("write #{} of {} on {:?} failed ({:?}), yet compress reported success and the archive ({} bytes) is not a complete archive of the source; {}", nth, count, target, action, archive.len(), desc),
+            );
+            return;
+        }
+    }
+    ctx.verdict.nontrivial = true;
+    ctx.verdict.shape = (count << 20) ^ (nth << 8) ^ (target.len() as u64) ^ ((stdin as u64) << 60) ^ ((r2.outcome.is_success() as u64) << 61);
+}
+
 pub fn run(ctx: &mut Ctx) {
     if gen::chance(1, 12) {
         return source_read_fault(ctx);
+    }
+    if gen::chance(1, 14) {
+        return compress_write_fault(ctx);
     }
     let big = gen::chance(1, if ctx.tier == crate::harness::Tier::Thorough { 30 } else { 400 });
     let max_len = if big { 5 << 20 } else { 128 * 1024 };
